@@ -173,7 +173,8 @@ impl<'a> Analysis<'a> {
         if self.prog.pay_droppable() {
             return true;
         }
-        !self.ops.iter().any(|o| o.k.is_recv() && matches!(o.res, Res::Dropped(n) if n >= 1))
+        // (a dropped send future may equally have been delivered invisibly)
+        !self.ops.iter().any(|o| matches!(o.res, Res::Dropped(n) if n >= 1))
     }
 
     /// a realtime operation that met a busy lock may always report "not done"
